@@ -330,6 +330,50 @@ func ruleENG11(c *Ctx) {
 	// the firing passes the cycle's own check as well (every path from loop header to Execute passes a ctx check in this iteration)
 	okFire := edgesDominate(fn, execs[0].(ssa.Instruction), func(b *ssa.BasicBlock, si int) bool { return ctxGuardEdge(b, si, ctx, outer) })
 	c.Check(okFire, "ExecuteWithContext / firing dominated by a ctx check of the same cycle", p.InstrPos(execs[0]), "dominated", "a rule can fire in a cycle that never checked the context")
+	// (iii) after the conditions of the cycle (D42): a cancellation inside the last condition is reported as such. Whatever
+	// the engine does with the conflict set - the cycle-limit error, telling the listeners of an execution, the firing -
+	// is behind a context check made after the rule loop was left, i.e. a guard edge in the cycle loop outside the rule loop
+	// that the exit of the rule loop dominates.
+	afterConds := func(b *ssa.BasicBlock, si int) bool {
+		if !ctxGuardEdge(b, si, ctx, outer) || inner.Blocks[b] {
+			return false
+		}
+		for _, ex := range inner.Exits() {
+			eb := ex[0].(*ssa.BasicBlock)
+			if target := eb.Succs[ex[1].(int)]; eb == inner.Header && target.Dominates(b) {
+				return true
+			}
+		}
+		return false
+	}
+	okIII := edgesDominate(fn, execs[0].(ssa.Instruction), afterConds)
+	late := ""
+	if okIII {
+		for _, b := range fn.Blocks {
+			if !outer.Blocks[b] || inner.Blocks[b] {
+				continue
+			}
+			for _, in := range b.Instrs {
+				// other ways out of the cycle after the conditions: error returns built in the cycle loop (the budget)
+				if r, isRet := in.(*ssa.Return); isRet && len(r.Results) == 1 && !isNilConst(r.Results[0]) {
+					if okc, _ := ctxTest(dominatingIfBlock(b), ctx); okc {
+						continue // the cancelled edge itself
+					}
+					reachedFromConds := false
+					for _, ex := range inner.Exits() {
+						eb := ex[0].(*ssa.BasicBlock)
+						if eb == inner.Header && eb.Succs[ex[1].(int)].Dominates(b) {
+							reachedFromConds = true
+						}
+					}
+					if reachedFromConds && !edgesDominate(fn, in, afterConds) {
+						late = "the error return at " + p.InstrPos(in)
+					}
+				}
+			}
+		}
+	}
+	c.Check(okIII && late == "", "ExecuteWithContext / ctx checked after the conditions of the cycle, before anything is done with the conflict set", p.InstrPos(execs[0]), "the firing and the error returns of the cycle are behind a ctx check that follows the rule loop", map[bool]string{true: late + " is reached after the conditions without a look at the context", false: "the firing is not behind a context check made after the rule loop"}[late != ""]+": a cancellation inside the last condition of a cycle is answered with the cycle-limit error when the budget runs out in the same cycle (MaxCycle 2, a condition that cancels in cycle 3), and the listeners are told of an execution that RuleEntry.Execute then refuses")
 	// a cancellation that lands inside the last condition or the last action of the run is still reported: no nil
 	// return is reachable from an evaluation or a firing without passing a context check
 	for _, site := range []ssa.CallInstruction{evals[0], execs[0]} {
@@ -970,4 +1014,15 @@ func ruleENG16(c *Ctx) {
 		}
 	}
 	c.OK("engine package / pointer results of interface calls examined", "engine/GruleEngine.go", fmt.Sprintf("%d functions, %d such results", len(fns), nSites))
+}
+
+
+// dominatingIfBlock: the block whose If leads straight to b (b has one predecessor ending in an If), else b itself.
+func dominatingIfBlock(b *ssa.BasicBlock) *ssa.BasicBlock {
+	if len(b.Preds) == 1 {
+		if _, isIf := b.Preds[0].Instrs[len(b.Preds[0].Instrs)-1].(*ssa.If); isIf {
+			return b.Preds[0]
+		}
+	}
+	return b
 }
